@@ -320,6 +320,22 @@ def run_case(c, rng):
             c.count('second_cycles')
             out2 = []
             diff(d1, canon(m2, version), '', out2, c, rel=1e-9)
+            # history: the concentration unit of the file is changed on a model that has already been written / read once (its
+            # InpFile object is kept on the model), then written again - header and values of the new file must agree
+            if not out2 and str(m1.options.quality.parameter).upper() == 'CHEMICAL' and c.index % 3 == 0:
+                try:
+                    m1.options.quality.inpfile_units = 'ug/L' if 'ug' not in str(m1.options.quality.inpfile_units).lower() else 'mg/L'
+                    wntr.network.write_inpfile(m1, f2 + '.u', units=units, version=version)
+                    m3 = wntr.network.WaterNetworkModel(f2 + '.u')
+                    c.count('cycles_after_changing_the_concentration_unit')
+                    out3 = []
+                    diff(d1, canon(m3, version), '', out3, c, rel=1e-9)
+                    for p, a, b in out3[:3]:
+                        c.violate('inp_differs_after_unit_change:' + path_class(p), 'units=%s version=%s, concentration unit changed to %s before the second write: %s was %s, is %s' % (
+                            units, version, m1.options.quality.inpfile_units, p, json.dumps(a)[:200], json.dumps(b)[:200]), **w)
+                except Exception as e:
+                    c.violate('second_cycle_raised', 'write/read after changing the concentration unit raised %s: %s' % (type(e).__name__, str(e)[:300]),
+                              traceback=traceback.format_exc()[-1800:], **w)
             for p, a, b in out2[:3]:
                 c.violate('second_cycle_differs:' + path_class(p), 'units=%s version=%s second cycle: %s was %s, is %s' % (
                     units, version, p, json.dumps(a)[:200], json.dumps(b)[:200]), **w)
